@@ -69,6 +69,13 @@ pub enum DefVal {
     CurrentTimestamp,
     /// a byte-string default (blob-affinity columns)
     Bytes(Vec<u8>),
+    /// a JSON document `{"t": <text>}` as the default (JSON columns)
+    Json(String),
+}
+
+/// the document of a `DefVal::Json`
+pub fn json_default(t: &str) -> serde_json::Value {
+    serde_json::json!({ "t": t })
 }
 
 #[derive(Clone, Debug, PartialEq)]
@@ -478,6 +485,7 @@ impl Col {
                         DefVal::Null => c.default(Keyword::Null),
                         DefVal::CurrentTimestamp => c.default(Keyword::CurrentTimestamp),
                         DefVal::Bytes(b) => c.default(Value::Bytes(Some(Box::new(b.clone())))),
+                        DefVal::Json(t) => c.default(Value::Json(Some(Box::new(json_default(t))))),
                     };
                 }
                 CS::Unique => {
@@ -597,6 +605,15 @@ impl Ix {
 impl Fk {
     pub fn statement(&self, table: &str) -> ForeignKeyCreateStatement {
         let mut fk = ForeignKey::create();
+        self.fill(&mut fk, table);
+        if crate::apply::route(3) == 0 {
+            return fk.take();
+        }
+        fk
+    }
+
+    /// the calls that declare this key, on a builder that may have been used (and emptied) before
+    pub fn fill(&self, fk: &mut ForeignKeyCreateStatement, table: &str) {
         if let Some(n) = &self.name {
             fk.name(n.as_str());
         }
@@ -646,10 +663,6 @@ impl Fk {
         if let Some(x) = self.on_update {
             fk.on_update(x);
         }
-        if crate::apply::route(3) == 0 {
-            return fk.take();
-        }
-        fk
     }
     pub fn table_fk(&self, table: &str) -> TableForeignKey {
         let mut fk = TableForeignKey::new();
@@ -715,8 +728,17 @@ impl Tbl {
                 t.index(&mut ix.statement(None));
             }
         }
+        // foreign_key() takes the declaration out of the builder it is given, leaving it empty: one builder
+        // can declare several keys in turn
+        let reuse_fk = self.fks.len() >= 2 && crate::apply::route(2) == 0;
+        let mut shared_fk = ForeignKey::create();
         for fk in &self.fks {
-            t.foreign_key(&mut fk.statement(&self.name));
+            if reuse_fk {
+                fk.fill(&mut shared_fk, &self.name);
+                t.foreign_key(&mut shared_fk);
+            } else {
+                t.foreign_key(&mut fk.statement(&self.name));
+            }
         }
         for (c, k) in &self.checks {
             if *k >= 100 {
@@ -766,6 +788,9 @@ pub fn action_sql(a: ForeignKeyAction) -> &'static str {
 }
 
 pub fn random_default(rng: &mut Rng, ty: &Ty) -> DefVal {
+    if matches!(ty, Ty::Json | Ty::JsonB) && rng.coin() {
+        return DefVal::Json(rng.pick(&["it's", "plain", "a \"q\" b", ""]).to_string());
+    }
     match ty.sqlite_affinity() {
         Some(Aff::Integer) => DefVal::Int(rng.range(-5, 90)),
         Some(Aff::Real) => DefVal::Real(*rng.pick(&[0.5, 1.25, -2.5])),
